@@ -47,9 +47,11 @@ OnResult(e) == /\ res' = Put(res, e.id, e) /\ UNCHANGED inp
                /\ Flag(Bad(e.id, e.result \in {"served", "rejected"}, "ends"))
 
 Observed(r, f) ==
-  IF r.result = "rejected" /\ r.code = "InvalidArgument" /\ f.follow = "served" THEN "rejected"
+  \* r.panic: the error text is the one log.CapturePanic produces (the proxy has no status-code mapping: every error
+  \* reaches the client as code Unknown, so the code cannot tell a decode error from a captured panic)
+  IF r.result = "rejected" /\ ~r.panic /\ f.follow = "served" /\ f.printer = "ok" THEN "rejected"
   ELSE IF r.result = "served" /\ f.follow = "served" /\ f.printer = "ok" THEN "served"
-  ELSE IF r.result = "rejected" /\ r.code = "Internal" /\ f.follow # "served" /\ f.printer = "blocked" THEN "leak"
+  ELSE IF r.result = "rejected" /\ r.panic /\ f.follow # "served" /\ f.printer = "blocked" THEN "leak"
   ELSE "other"
 
 OnFollowUp(e) ==
